@@ -13,7 +13,8 @@ C03 — the specification predicate, written from the English statement and eval
 Reading (DESIGN.md C03 "I"): a *candidate* is a route with at least one target whose host key is empty or
 matches and whose path matches. Host classes: host-less < wildcard (key contains a glob metacharacter)
 < exact. With host globbing disabled every non-empty key is compared literally and is "exact". "Longer host
-suffix" is decided between wildcard keys of the form `*`+literal. "Longest path" is the byte length of the
+suffix" is decided between two wildcard keys of which the shorter is `*`+S and the longer ends with S
+(`longerHostSuffix`). "Longest path" is the byte length of the
 route path for the prefix and iprefix matchers; for the glob matcher the notion has no intrinsic meaning
 (DESIGN.md C03 "I", fixed before any run) and the specification demands only soundness, completeness and
 the host order there.
@@ -68,6 +69,17 @@ def starSuffix (k : Str) : Option Str :=
   | '*' :: s => if hasMeta s then none else some s
   | _ => none
 
+/-- "a longer host suffix beats a shorter one", between two wildcard keys that both match (normalised
+forms): the shorter key is `*` ++ S — everything that ends with S — and the longer key ends with S too and is
+longer: `*.a.foo.com`, `*.*.foo.com`, `*-eu.foo.com`, `{a,b}.foo.com` against `*.foo.com`; with ports
+`*.*.foo.com:8080` against `*.foo.com:8080`. (Until round 3 the reading was narrower — both keys `*`+literal —
+and could not see `*.*.foo.com`: an independent author's change and a defect of the unchanged code, the port's
+`:` taking part in the comparison of the host names, both lived there.) -/
+def longerHostSuffix (a b : Str) : Bool :=
+  match b with
+  | '*' :: s => decide (a.length > b.length) && s.isSuffixOf a
+  | _ => false
+
 inductive Why where
   | hostClass | hostSuffix | pathLength
 deriving DecidableEq, Repr
@@ -75,10 +87,7 @@ deriving DecidableEq, Repr
 /-- is candidate `a` strictly more specific than candidate `b`, and by which sentence of the statement -/
 def moreSpecific (c : Case) (a b : Str × Str) : Option Why :=
   let longerSuffix : Bool :=
-    hostClass c a.1 == 1 && hostClass c b.1 == 1 &&
-    (match starSuffix (norm c a.1), starSuffix (norm c b.1) with
-     | some s, some s' => decide (s.length > s'.length)
-     | _, _ => false)
+    hostClass c a.1 == 1 && hostClass c b.1 == 1 && longerHostSuffix (norm c a.1) (norm c b.1)
   if hostClass c a.1 > hostClass c b.1 then some .hostClass
   else if longerSuffix then some .hostSuffix
   else if c.kind != .glob && a.1 == b.1 && byteLen a.2 > byteLen b.2 then some .pathLength
